@@ -90,6 +90,7 @@ func (s *c04slot) ownFopts(v ssa.Value) bool {
 }
 
 func checkC04(c *Ctx, r *Report) {
+	defer nanRule(c, r)
 	r.Assumption("custom validators registered with RegisterValidator and Validate() methods are user code; the rule decides that they are called, not what they accept")
 	r.Assumption("kind waiver: no built-in validator inspects struct values or Config-convertible values; a pointer to a map passes every built-in validator when non-nil")
 	runV := c.Func("", "runValidators")
@@ -841,6 +842,113 @@ func validatedIsReturnedRule(c *Ctx, r *Report) {
 				r.Check(same, "R04g", name, what, c.Pos(vc.Pos()), "validates the value that is returned ("+opCore.Name()+")",
 					"the value validated ("+opCore.Name()+" = "+clip(opCore.String(), 80)+") is not the value returned ("+retCore.Name()+" = "+clip(retCore.String(), 80)+") up to pointer/interface wrappers — a default that InitDefaults produced (or a converted value) escapes its validators")
 			}
+		}
+	}
+}
+
+// nanRule (R04h): a validator that bounds a floating point value accepts it on the true edge of a comparison. NaN
+// fails every ordered comparison, so a value that is accepted because it was *not* found to be out of range (both
+// `f < min` and `f > min` false, a three-way compare that answers "equal") lets NaN through min, max and positive.
+func nanRule(c *Ctx, r *Report) {
+	r.Rule("R04h", "every accepting path of a tag validator that reads the value as a float takes the true edge of a comparison on it (NaN is not accepted by default)", 3)
+	reg := c.TryFunc("", "initRegisterValidator")
+	initFn := c.SSA[""].Func("init")
+	var validators []*ssa.Function
+	seen := map[*ssa.Function]bool{}
+	for _, top := range c.SrcFuncs() {
+		if top.Pkg != c.SSA[""] || reg == nil {
+			continue
+		}
+		for _, ci := range CallsTo(top, reg, true) {
+			for _, a := range ci.Common().Args {
+				for _, s := range append(Sources(a), a) {
+					if f, ok := s.(*ssa.Function); ok && !seen[f] {
+						seen[f] = true
+						validators = append(validators, f)
+					}
+					if mc, ok := s.(*ssa.MakeClosure); ok {
+						if f, ok := mc.Fn.(*ssa.Function); ok && !seen[f] {
+							seen[f] = true
+							validators = append(validators, f)
+						}
+					}
+					if ct, ok := s.(*ssa.ChangeType); ok {
+						if f, ok := ct.X.(*ssa.Function); ok && !seen[f] {
+							seen[f] = true
+							validators = append(validators, f)
+						}
+					}
+				}
+			}
+		}
+	}
+	_ = initFn
+	isFloatT := func(t types.Type) bool {
+		b, ok := t.Underlying().(*types.Basic)
+		return ok && b.Info()&types.IsFloat != 0
+	}
+	for _, fn := range validators {
+		name := c.FnName(fn)
+		floatBlocks := map[*ssa.BasicBlock]bool{}
+		for _, ci := range CallsIn(fn, false) {
+			if g := ci.Common().StaticCallee(); g != nil && g.String() == "(reflect.Value).Float" {
+				floatBlocks[ci.(ssa.Instruction).Block()] = true
+			}
+		}
+		if len(floatBlocks) == 0 {
+			continue
+		}
+		bad, undecided := "", false
+		accepting := 0
+		for _, ret := range Returns(fn) {
+			if len(ret.Results) != 1 {
+				continue
+			}
+			paths, ok := PathsTo(fn, ret.Block())
+			if !ok {
+				undecided = true
+				continue
+			}
+			for _, p := range paths {
+				through := false
+				for _, b := range p.Blocks {
+					if floatBlocks[b] {
+						through = true
+					}
+				}
+				if !through {
+					continue
+				}
+				res := resolvePhiOnPath(ret.Results[0], p.Blocks)
+				if !IsNilConst(res) {
+					if nilness(res, nil, 0) != -1 {
+						continue // an error is returned
+					}
+				}
+				accepting++
+				taken := false
+				for _, pc := range p.Conds {
+					bo, isB := pc.V.(*ssa.BinOp)
+					if !isB || !pc.Truth {
+						continue
+					}
+					if isFloatT(bo.X.Type()) && isFloatT(bo.Y.Type()) {
+						taken = true
+					}
+				}
+				if !taken {
+					bad = c.Pos(ret.Pos())
+				}
+			}
+		}
+		switch {
+		case undecided:
+			r.add("R04h", name, "float accepted on a true edge", c.Pos(fn.Pos()), Undecided, true, "too many paths")
+		case accepting == 0:
+			r.Trivial("R04h", name, "float accepted on a true edge", c.Pos(fn.Pos()), "no accepting path reads a float")
+		default:
+			r.Check(bad == "", "R04h", name, "float accepted on a true edge", c.Pos(fn.Pos()), fmt.Sprintf("%d accepting path(s), each through the true edge of a float comparison", accepting),
+				"a floating point value is accepted (return at "+bad+") on a path that takes no float comparison on its true edge: NaN fails every comparison and so passes this validator — a NaN setting satisfies min / max / positive")
 		}
 	}
 }
